@@ -38,8 +38,8 @@ func (f faultSpec) String() string {
 // Fault kinds. Packet kinds are addressed by packet index of the attempt.
 var packetKinds = []string{"fin", "rst", "short0", "zerolen", "cut", "badseq", "err", "eof", "cancel-master",
 	"inject-rowsquery", "inject-intvar", "inject-rand", "inject-invalid"}
-var txKinds = []string{"cancel-handler", "handler-err"}
-var mapperKinds = []string{"mapper-err", "mapper-count"}
+var txKinds = []string{"cancel-handler", "handler-err", "handler-err-cancel"}
+var mapperKinds = []string{"mapper-err", "mapper-count", "mapper-err-cancel", "mapper-count-cancel"}
 
 // preconnKinds fail the attempt before a reader exists.
 var preconnKinds = []string{"connect-refused", "handshake-garbage", "handshake-close", "handshake-err", "auth-err", "set-rejected", "set-close", "dump-write-fail"}
@@ -72,9 +72,9 @@ func causeClass(k string) string {
 		return "gate-reject"
 	case "inject-rowsquery", "inject-intvar", "inject-rand":
 		return "unsupported-event"
-	case "handler-err":
+	case "handler-err", "handler-err-cancel":
 		return "handler"
-	case "mapper-err", "mapper-count":
+	case "mapper-err", "mapper-count", "mapper-err-cancel", "mapper-count-cancel":
 		return "mapper"
 	}
 	if isPreconn(k) {
@@ -240,9 +240,12 @@ func runAttempt(c *core.Ctx, s *run.Session, l *hist.Layout, start hist.Pos, spe
 		}
 		scr.Faults[at] = f
 	case isTxKind(spec.Kind):
-		if spec.Kind == "handler-err" {
+		switch spec.Kind {
+		case "handler-err":
 			hs.ErrAt = at
-		} else {
+		case "handler-err-cancel": // the caller cancels while the handler is running, and the handler then fails
+			hs.ErrAt, hs.CancelAt = at, at
+		default:
 			hs.CancelAt = at
 		}
 		hs.OnCall = func(n int, tx *gobinlog.Transaction, d *run.Delivered) {
@@ -253,7 +256,11 @@ func runAttempt(c *core.Ctx, s *run.Session, l *hist.Layout, start hist.Pos, spe
 	case isMapperKind(spec.Kind):
 		base := s.Mapper.TotalCalls()
 		s.Mapper.ErrOnCall, s.Mapper.BadOnCall = 0, 0
-		if spec.Kind == "mapper-err" {
+		s.Mapper.OnFail = nil
+		if strings.HasSuffix(spec.Kind, "-cancel") { // the caller cancels while the lookup is running
+			s.Mapper.OnFail = s.Cancel
+		}
+		if strings.HasPrefix(spec.Kind, "mapper-err") {
 			s.Mapper.ErrOnCall = base + at + 1
 		} else {
 			s.Mapper.BadOnCall = base + at + 1
@@ -297,7 +304,7 @@ func runAttempt(c *core.Ctx, s *run.Session, l *hist.Layout, start hist.Pos, spe
 				ob.mu.Unlock()
 			}
 		}
-		s.Mapper.ErrOnCall, s.Mapper.BadOnCall = 0, 0
+		s.Mapper.ErrOnCall, s.Mapper.BadOnCall, s.Mapper.OnFail = 0, 0, nil
 	}
 	if ob.Res.Verdict != run.Returned {
 		return ob
